@@ -20,6 +20,7 @@ CONSTANTS Geoms,        \* sequence of lattice geometries to draw from
           MaxTotal,     \* n + m <= MaxTotal
           ZeroPairs,    \* "pair" | "split"
           ExportAt,     \* "matrix" | "solve"
+          TB, FB,       \* buffers in ticks (0, or powers of two with lists restricted to Exactable ones)
           WithTwins     \* BOOLEAN: also enumerate the lists of TwinInputs (cases only: the model has no closed form for them)
 VARIABLES c, pc, W, asg, rows, cols, out
 
@@ -59,9 +60,17 @@ Prov(s, salt) == [k \in DOMAIN s |-> (s[k] + 2 * k + salt) % 4]
 Degenerate == << G("TimeInterval", <<1, 1>>), G("TimeStamp", 1), G("BoundingBox", <<1, 0, 1, 2>>),
                  G("TimeInterval", <<0, 2>>), G("TimeInterval", <<1, 3>>), G("BoundingBox", <<0, 0, 2, 2>>) >>
 
+\* kinds that are buffered, next to TimeStamps: with TB = 2, 4 ticks the buffer exceeds 1 s at unit 1 s
+Buffered == << G("TimeStamp", 1), G("TimeStamp", 4), G("TimeStamp", 8),
+               G("Point", <<2, 1>>), G("Point", <<6, 2>>), G("MultiPoint", <<<<1, 1>>, <<5, 2>>>>),
+               G("LineString", <<<<3, 2>>, <<5, 2>>>>), G("BoundingBox", <<2, 0, 7, 3>>) >>
+
 Idx == 1..Len(Geoms)
 SeqsUpTo(k) == UNION {[1..l -> Idx] : l \in 0..k}
-Inputs == {x \in SeqsUpTo(MaxN) \X SeqsUpTo(MaxM) : Len(x[1]) + Len(x[2]) <= MaxTotal}
+\* with buffers the exact matrix exists when every cross pair has a time-only side
+Exactable(x) == TB = 0 \/ \A i \in DOMAIN x[1], j \in DOMAIN x[2] :
+                            Aff!TimeOnlyPair(Geoms[x[1][i]].type, Geoms[x[2][j]].type)
+Inputs == {x \in SeqsUpTo(MaxN) \X SeqsUpTo(MaxM) : Len(x[1]) + Len(x[2]) <= MaxTotal /\ Exactable(x)}
 Src == [k \in DOMAIN c.src |-> Geoms[c.src[k]]]
 Tgt == [k \in DOMAIN c.tgt |-> Geoms[c.tgt[k]]]
 n == Len(c.src)
@@ -76,7 +85,7 @@ NextPair == CHOOSE p \in asg : \A q \in asg : p[1] <= q[1]         \* scipy retu
 Init == /\ \/ \E x \in Inputs : c = [src |-> x[1], tgt |-> x[2]] /\ pc = "matrix"
            \/ \E x \in TwinInputs : c = [src |-> x[1], tgt |-> x[2]] /\ pc = "twin"
         /\ W = <<>> /\ asg = {} /\ rows = {} /\ cols = {} /\ out = <<>>
-Matrix == /\ pc = "matrix" /\ W' = ExactW(Src, Tgt) /\ rows' = 1..n /\ cols' = 1..m
+Matrix == /\ pc = "matrix" /\ W' = ExactWB(Src, Tgt, TB) /\ rows' = 1..n /\ cols' = 1..m
           /\ pc' = "solve" /\ UNCHANGED <<c, asg, out>>
 Solve == /\ pc = "solve" /\ asg' \in BestComplete /\ pc' = "pairs" /\ UNCHANGED <<c, W, rows, cols, out>>
 Pair == /\ pc = "pairs" /\ asg # {}
@@ -99,7 +108,7 @@ Next == Matrix \/ Solve \/ Pair \/ Skip \/ PairsDone \/ Row \/ RowsDone \/ Col \
 Spec == Init /\ [][Next]_vars /\ WF_vars(Next)
 
 \* exhaustive runs print every initial state; -simulate runs (ExportAt = "solve") only the behaviours actually sampled
-Export == /\ pc = ExportAt => PrintT(<<"CASE", ToJson([kind |-> "lat", src |-> Src, tgt |-> Tgt,
+Export == /\ pc = ExportAt => PrintT(<<"CASE", ToJson([kind |-> "lat", src |-> Src, tgt |-> Tgt, tb |-> TB, fb |-> FB,
                                                          sp |-> Prov(c.src, Len(c.tgt)), tp |-> Prov(c.tgt, 1 + Len(c.src))])>>)
           /\ pc = "twin" => PrintT(<<"CASE", ToJson([kind |-> "twin", src |-> [k \in DOMAIN c.src |-> TwinGeoms[c.src[k]]],
                                                      tgt |-> [k \in DOMAIN c.tgt |-> TwinGeoms[c.tgt[k]]],
@@ -116,9 +125,10 @@ LawCompleteIsOptimal == pc = "solve" => \A P \in BestComplete : Val(W, P) = OptV
 \* the repair does not change the value: dropping zero pairs from a pairing leaves its value
 LawRecursionIsOptVal == pc = "solve" => OptValRec(W, n, m) = OptVal(W, n, m)
 LawZeroPairsAreFree == pc = "solve" => \A P \in BestComplete : Val(W, {p \in P : W[p[1]][p[2]] > 0}) = Val(W, P)
-LawSelfIsOne == pc = "solve" => \A i \in 1..n, j \in 1..m : (Src[i] = Tgt[j]) => AffRat(Src[i], Tgt[j])[1] = AffRat(Src[i], Tgt[j])[2]
+LawSelfIsOne == pc = "solve" => \A i \in 1..n, j \in 1..m : (Src[i] = Tgt[j]) => AffRatB(Src[i], Tgt[j], TB)[1] = AffRatB(Src[i], Tgt[j], TB)[2]
 \* a zero-extent geometry has affinity 0 with everything (ratio 0/u, or 0/0 guarded): it always ends up unpaired
-LawZeroExtentUnpaired == Done => \A k \in DOMAIN out : IsPair(out[k]) =>
-    LET a == Src[Some(out[k].s)]  b == Tgt[Some(out[k].t)] IN TimeExtent(a, Aff!FMAXT)[1] < TimeExtent(a, Aff!FMAXT)[2] /\ TimeExtent(b, Aff!FMAXT)[1] < TimeExtent(b, Aff!FMAXT)[2]
+LawZeroExtentUnpaired == (Done /\ TB = 0) => \A k \in DOMAIN out : IsPair(out[k]) =>
+    LET a == Src[Some(out[k].s)]  b == Tgt[Some(out[k].t)]
+    IN  TimeExtent(a, Aff!FMAXT)[1] < TimeExtent(a, Aff!FMAXT)[2] /\ TimeExtent(b, Aff!FMAXT)[1] < TimeExtent(b, Aff!FMAXT)[2]
 Terminates == <>(Done \/ pc = "twin")
 =============================================================================
